@@ -4,6 +4,7 @@ import (
 	"fmt"
 
 	"symgo/interp"
+	"symgo/numgen"
 )
 
 const vmPkg = ledgerMod + "/internal/machine/vm"
@@ -14,6 +15,22 @@ func allShapes(s *Session, tier string) []int {
 		out[i] = i
 	}
 	return out
+}
+
+// sampledShapes: every program of the quick part, and one in `stride` of the three-leaf
+// programs the thorough tier adds (the differential and the crash check cost three to
+// four times what the floor rule costs per program).
+func sampledShapes(stride int) func(s *Session, tier string) []int {
+	return func(s *Session, tier string) []int {
+		nq := len(numgen.Generate("quick"))
+		var out []int
+		for i := range s.Shapes {
+			if i < nq || (i-nq)%stride == 0 {
+				out = append(out, i)
+			}
+		}
+		return out
+	}
 }
 
 func shapeDesc(s *Session, i int) string {
@@ -470,10 +487,17 @@ var specs = map[string]*CheckSpec{
 	},
 	"C08": {
 		ID: "C08", Patterns: []string{vmPkg, cmdPkg}, NeedShapes: true, NeedHelper: true, Instrument: true,
-		Runs: []HarnessRun{vmRun("ZZ_C08", 5),
+		Runs: []HarnessRun{func() HarnessRun { r := vmRun("ZZ_C08", 5); r.Shapes = sampledShapes(3); return r }(),
 			{Pkg: vmPkg, Dir: "internal/machine/vm", Mod: "ledger", Fn: "ZZ_C08X", Shapes: countShapes(vmPkg, "ZZ_C08XN"), Cfg: vmCfg, Desc: harnessDesc(vmPkg, "ZZ_C08XDesc", "rest of the grammar:"), CanaryShapes: []int{0, 8}},
 			concRun("ZZ_C08Cache", "ZZ_C08CacheN", "ZZ_C08CacheDesc", "compilation cache:", 1, 2, false, nil, []int{0})},
-		Bounds: numgenBounds, Assumptions: append([]string{"RefSem (harness zz_ast.go) is the trusted reading of the source text", "command.Compiler.Compile is interpreted (sha256 as injective token); gcache is modelled as a bounded LFU map; two concurrent requests with different texts, cache sizes 1/2/1024, pre-emption budget 1"}, vmStubs...), Encoded: vmEncoded,
+		Bounds: func(tier string) map[string]any {
+			b := numgenBounds(tier)
+			if tier == "thorough" {
+				b["numscript_programs"] = fmt.Sprint(b["numscript_programs"]) + "; of the three-leaf programs the differential takes one in three (about 780 programs in all): with all of them it does not finish in 50 min"
+			}
+			return b
+		},
+		Assumptions: append([]string{"RefSem (harness zz_ast.go) is the trusted reading of the source text", "command.Compiler.Compile is interpreted (sha256 as injective token); gcache is modelled as a bounded LFU map; two concurrent requests with different texts, cache sizes 1/2/1024, pre-emption budget 1"}, vmStubs...), Encoded: vmEncoded,
 		Rule:   "differential: real compiler (native) + real VM (symbolic) against the reference semantics; per (source,destination,asset) sums compared by the solver on every path; compile acceptance compared with the language's static rules",
 	},
 	"C12": {
